@@ -347,6 +347,19 @@ Section Proofs.
     - apply hinv_init. intros f g rs Hin. apply Hf. eapply memo_fields_In; eauto.
     - split; [assumption|]. intros f g rs Hin. left. apply Hf'. eapply memo_fields_In; eauto.
   Qed.
+  (* Without caches the statement is stronger: the value returned by a self-initialising call
+     is determined by its argument and the CURRENT values of the configuration fields, whatever
+     was called before — including calls that changed the configuration. *)
+  Theorem config_determines_output : forall (cfg : list field) (c : call),
+    self_initialising cfg c = true -> memo_list (c_steps c) = [] ->
+    forall (r r' : rec) (a : A), agree cfg r r' ->
+      snd (exec_call a r c) = snd (exec_call a r' c).
+  Proof.
+    intros cfg c Hsi Hm r r' a Hag.
+    apply (call_output_determined cfg c r'); auto; rewrite Hm.
+    - split; [assumption|]. intros f g rs [].
+    - split; [intros f _; reflexivity|]. intros f g rs [].
+  Qed.
 End Proofs.
 
 (* ---------- the link to the frame loop with a reused encoder (CtrFrames shape B) ---------- *)
